@@ -92,3 +92,400 @@ Lemma outside_brain_spec labels i :
 Proof.
   unfold outside_brain. rewrite positions_spec. rewrite Nat.sub_0_r. split; intros [H1 H2]; (split; [lia|exact H2]).
 Qed.
+
+(* ------------------------------------------------------------------ *)
+(* gather / scatter                                                     *)
+Section RowsProofs.
+  Variable T : Type.
+  Variable d : T.
+
+  Lemma set_nth_length i (v : T) l : length (set_nth i v l) = length l.
+  Proof. revert i; induction l as [|a t IH]; intros [|i]; cbn; auto. Qed.
+
+  Lemma nth_set_nth_eq i (v : T) l : (i < length l)%nat -> nth i (set_nth i v l) d = v.
+  Proof.
+    revert i; induction l as [|a t IH]; intros [|i] H; cbn in *; try lia; auto. apply IH; lia.
+  Qed.
+
+  Lemma nth_set_nth_neq i j (v : T) l : i <> j -> nth j (set_nth i v l) d = nth j l d.
+  Proof.
+    revert i j; induction l as [|a t IH]; intros [|i] [|j] H; cbn; auto; try congruence.
+  Qed.
+
+  Lemma scatter_length idx : forall (rows out : list T),
+    length (scatter idx rows out) = length out.
+  Proof.
+    induction idx as [|i idx IH]; intros [|r rows] out; cbn; auto.
+    rewrite IH. apply set_nth_length.
+  Qed.
+
+  Lemma scatter_nth_notin idx : forall (rows out : list T) j,
+    ~ In j idx -> nth j (scatter idx rows out) d = nth j out d.
+  Proof.
+    induction idx as [|i idx IH]; intros [|r rows] out j H; cbn; auto.
+    rewrite IH by (intros H'; apply H; now right).
+    apply nth_set_nth_neq. intros ->. apply H. now left.
+  Qed.
+
+  Lemma scatter_nth_in idx : forall (rows out : list T) k,
+    NoDup idx -> length rows = length idx -> (forall i, In i idx -> (i < length out)%nat) ->
+    (k < length idx)%nat ->
+    nth (nth k idx O) (scatter idx rows out) d = nth k rows d.
+  Proof.
+    induction idx as [|i idx IH]; intros [|r rows] out k ND HL HB Hk; cbn in *; try lia.
+    inversion ND as [|? ? Hni ND']; subst.
+    destruct k as [|k].
+    - rewrite scatter_nth_notin by assumption. apply nth_set_nth_eq. apply HB. now left.
+    - apply IH; try assumption; try lia.
+      intros j Hj. rewrite set_nth_length. apply HB. now right.
+  Qed.
+
+  Lemma gather_length idx (x : list T) : length (gather d idx x) = length idx.
+  Proof. unfold gather. apply map_length. Qed.
+
+  Lemma gather_scatter idx (rows out : list T) :
+    NoDup idx -> length rows = length idx -> (forall i, In i idx -> (i < length out)%nat) ->
+    gather d idx (scatter idx rows out) = rows.
+  Proof.
+    intros ND HL HB. apply nth_ext with (d := d) (d' := d).
+    - rewrite gather_length. auto.
+    - intros k Hk. rewrite gather_length in Hk. unfold gather.
+      rewrite nth_indep with (d' := nth O (scatter idx rows out) d) by (rewrite map_length; exact Hk).
+      rewrite map_nth with (d := O). now apply scatter_nth_in.
+  Qed.
+
+  Lemma gather_ext idx (a b : list T) :
+    (forall i, In i idx -> nth i a d = nth i b d) -> gather d idx a = gather d idx b.
+  Proof. intros H. unfold gather. apply map_ext_in. exact H. Qed.
+End RowsProofs.
+
+(* ------------------------------------------------------------------ *)
+(* np.unique                                                            *)
+Fixpoint ssorted (l : list Z) : Prop :=
+  match l with [] => True | a :: t => (forall b, In b t -> (a < b)%Z) /\ ssorted t end.
+
+Lemma insert_u_in x l y : In y (insert_u x l) <-> y = x \/ In y l.
+Proof.
+  induction l as [|a t IH]; cbn.
+  - intuition.
+  - destruct (Z.ltb_spec x a); [cbn; intuition|].
+    destruct (Z.eqb_spec x a); [subst; cbn; intuition|].
+    cbn. rewrite IH. intuition.
+Qed.
+
+Lemma insert_u_sorted x l : ssorted l -> ssorted (insert_u x l).
+Proof.
+  induction l as [|a t IH]; cbn; [intuition|]. intros [Ha Ht].
+  destruct (Z.ltb_spec x a).
+  - cbn. split; [|split; assumption]. intros b [<-|Hb]; [assumption|]. specialize (Ha b Hb). lia.
+  - destruct (Z.eqb_spec x a); [cbn; split; assumption|].
+    cbn. split; [|apply IH; assumption].
+    intros b Hb. apply insert_u_in in Hb. destruct Hb as [->|Hb]; [lia|apply Ha; assumption].
+Qed.
+
+Lemma np_unique_in l y : In y (np_unique l) <-> In y l.
+Proof.
+  induction l as [|a t IH]; cbn; [tauto|]. rewrite insert_u_in, IH. intuition.
+Qed.
+
+Lemma np_unique_sorted l : ssorted (np_unique l).
+Proof. induction l as [|a t IH]; cbn; [exact I|]. now apply insert_u_sorted. Qed.
+
+Lemma ssorted_NoDup l : ssorted l -> NoDup l.
+Proof.
+  induction l as [|a t IH]; cbn; [constructor|]. intros [Ha Ht]. constructor; [|auto].
+  intros H. specialize (Ha a H). lia.
+Qed.
+
+(* ------------------------------------------------------------------ *)
+(* the per-collection loop                                              *)
+Section GroupedProofs.
+  Variable T : Type.
+  Variable d : T.
+  Variable zero_like : T -> T.
+  Variable f : list T -> list T.
+  Hypothesis f_length : forall l, length (f l) = length l.
+  Set Default Proof Using "f_length".
+
+  Local Notation pos c coll := (positions c coll O).
+
+  Lemma positions_bound c coll i : In i (pos c coll) -> (i < length coll)%nat.
+  Proof. intros H. apply positions_spec in H. lia. Qed.
+
+  Lemma positions_disjoint c c' coll i : In i (pos c coll) -> In i (pos c' coll) -> c = c'.
+  Proof.
+    intros H H'. apply positions_spec in H. apply positions_spec in H'.
+    destruct H as [_ H], H' as [_ H']. congruence.
+  Qed.
+
+  Definition gstep (coll : list Z) (x : list T) (out : list T) (c : Z) : list T :=
+    scatter (pos c coll) (f (gather d (pos c coll) x)) out.
+
+  Lemma fold_groups coll x : forall labels out,
+    NoDup labels -> length out = length coll ->
+    let out' := fold_left (gstep coll x) labels out in
+    length out' = length out /\
+    (forall c, In c labels -> gather d (pos c coll) out' = f (gather d (pos c coll) x)) /\
+    (forall j, (forall c, In c labels -> ~ In j (pos c coll)) -> nth j out' d = nth j out d).
+  Proof.
+    induction labels as [|c labels IH]; intros out ND HL; cbn [fold_left].
+    - split; [reflexivity|]. split; [intros c []|reflexivity].
+    - inversion ND as [|? ? Hnc ND']; subst.
+      assert (HL1 : length (gstep coll x out c) = length coll).
+      { unfold gstep. rewrite scatter_length. exact HL. }
+      destruct (IH (gstep coll x out c) ND' HL1) as [A [B C]].
+      split; [rewrite A; unfold gstep; apply scatter_length|]. split.
+      + intros c' [<-|Hc'].
+        * rewrite gather_ext with (b := gstep coll x out c).
+          -- unfold gstep. apply gather_scatter.
+             ++ apply incr_from_NoDup with O. apply positions_incr.
+             ++ rewrite f_length. apply gather_length.
+             ++ intros i Hi. rewrite HL. now apply positions_bound with c.
+          -- intros i Hi. apply C. intros c'' Hc'' Hi'.
+             assert (c = c'') by (eapply positions_disjoint; eassumption). subst. contradiction.
+        * now apply B.
+      + intros j Hj. rewrite C by (intros c' Hc'; apply Hj; now right).
+        unfold gstep. apply scatter_nth_notin. apply Hj. now left.
+  Qed.
+
+  (* grouped f coll x: every group's rows are f applied to that group's rows
+     alone; shape preserved; every row belongs to exactly the group of its label *)
+  Lemma grouped_spec coll x out :
+    coll <> [] -> grouped d zero_like f coll x = Some out ->
+    length coll = length x /\ length out = length x /\
+    (forall c, In c coll ->
+       gather d (pos c coll) out = f (gather d (pos c coll) x)) /\
+    (forall i, (i < length x)%nat -> In i (pos (nth i coll 0%Z) coll)).
+  Proof.
+    intros Hne H. unfold grouped in H. destruct coll as [|c0 coll']; [congruence|].
+    set (coll := c0 :: coll') in *.
+    destruct (Nat.eqb_spec (length coll) (length x)) as [E|E]; [|discriminate].
+    injection H as <-. unfold grouped_loop.
+    pose proof (fold_groups coll x (np_unique coll) (map zero_like x)
+                  (ssorted_NoDup _ (np_unique_sorted coll))) as F.
+    rewrite map_length in F. specialize (F (eq_sym E)). cbv zeta in F.
+    destruct F as [A [B C]].
+    split; [exact E|]. split; [exact A|]. split.
+    - intros c Hc. apply B. now apply np_unique_in.
+    - intros i Hi. apply positions_spec. split; [lia|]. now rewrite Nat.sub_0_r.
+  Qed.
+
+  Lemma grouped_mismatch coll x :
+    coll <> [] -> length coll <> length x -> grouped d zero_like f coll x = None.
+  Proof.
+    intros Hne H. unfold grouped. destruct coll; [congruence|].
+    destruct (Nat.eqb_spec (length (z :: coll)) (length x)); [contradiction|reflexivity].
+  Qed.
+End GroupedProofs.
+
+(* ------------------------------------------------------------------ *)
+(* numeric part over an abstract field with a translation-invariant <=? *)
+Section NumericProofs.
+  Variable R : Type.
+  Variables (rO rI : R) (radd rmul rsub rdiv : R -> R -> R) (ropp rinv : R -> R).
+  Variable rleb : R -> R -> bool.
+  Variable reqb : R -> R -> bool.
+  Variable rabs : R -> R.
+  Hypothesis Rth : field_theory rO rI radd rmul rsub ropp rdiv rinv (@eq R).
+  Hypothesis two_neq : radd rI rI <> rO.
+  Hypothesis char0 : forall n, of_nat R rO rI radd (S n) <> rO.
+  Hypothesis rleb_translate : forall a b m, rleb (rsub a m) (rsub b m) = rleb a b.
+  Hypothesis reqb_ok : forall a b, reqb a b = true <-> a = b.
+  Add Field Rfield : Rth.
+  Set Default Proof Using "Rth two_neq char0 rleb_translate reqb_ok".
+
+  Local Notation ofn := (of_nat R rO rI radd).
+  Local Notation rsum := (rsum R rO radd).
+  Local Notation insert := (insert R rleb).
+  Local Notation sort := (sort R rleb).
+  Local Notation median := (median R rO rI radd rdiv rleb).
+  Local Notation mean := (mean R rO rI radd rdiv).
+  Local Notation col := (col R rO).
+  Local Notation ncols := (ncols R).
+  Local Notation col_stats := (col_stats R rO).
+  Local Notation vsub := (vsub R rsub).
+  Local Notation car_base := (car_base R rO rI radd rsub rdiv rleb).
+  Local Notation car := (car R rO rI radd rsub rdiv rleb).
+  Local Notation zero_row := (zero_row R rO).
+  Local Notation two := (two R rI radd).
+
+  Definition rect (x : list (list R)) : Prop := forall r, In r x -> length r = ncols x.
+
+  (* --- sorting commutes with order-preserving maps --- *)
+  Lemma insert_map (g : R -> R) (Hg : forall a b, rleb (g a) (g b) = rleb a b) a l :
+    insert (g a) (map g l) = map g (insert a l).
+  Proof.
+    induction l as [|b t IH]; cbn; [reflexivity|].
+    rewrite Hg. destruct (rleb a b); cbn; [reflexivity|]. now rewrite IH.
+  Qed.
+
+  Lemma sort_map (g : R -> R) (Hg : forall a b, rleb (g a) (g b) = rleb a b) l :
+    sort (map g l) = map g (sort l).
+  Proof.
+    induction l as [|a t IH]; cbn; [reflexivity|].
+    unfold Model.sort in *. cbn. rewrite IH. now apply insert_map.
+  Qed.
+
+  Lemma insert_length a l : length (insert a l) = S (length l).
+  Proof. induction l as [|b t IH]; cbn; [reflexivity|]. destruct (rleb a b); cbn; auto. Qed.
+
+  Lemma sort_length l : length (sort l) = length l.
+  Proof.
+    induction l as [|a t IH]; cbn; [reflexivity|]. unfold Model.sort in *. cbn.
+    rewrite insert_length. now rewrite IH.
+  Qed.
+
+  Lemma nth_map_lt (g : R -> R) k l : (k < length l)%nat -> nth k (map g l) rO = g (nth k l rO).
+  Proof.
+    intros H. rewrite nth_indep with (d' := g rO) by (now rewrite map_length). apply map_nth.
+  Qed.
+
+  (* median is translation-equivariant *)
+  Lemma median_translate m l : l <> [] ->
+    median (map (fun v => rsub v m) l) = rsub (median l) m.
+  Proof.
+    intros Hne. unfold Model.median. rewrite map_length.
+    rewrite sort_map by (intros; apply rleb_translate).
+    assert (Hn : (0 < length l)%nat) by (destruct l; [congruence|cbn; lia]).
+    pose proof (sort_length l) as HS.
+    destruct (Nat.even (length l)) eqn:E.
+    - assert (Hn2 : (2 <= length l)%nat).
+      { destruct l as [|a [|b t]]; cbn in *; try lia; discriminate. }
+      assert (H1 : (length l / 2 < length l)%nat) by (apply Nat.div_lt; lia).
+      assert (H0 : (length l / 2 - 1 < length l)%nat) by lia.
+      rewrite !nth_map_lt by (rewrite HS; assumption).
+      unfold Model.two. field. exact two_neq.
+    - assert (H1 : (length l / 2 < length l)%nat) by (apply Nat.div_lt; lia).
+      rewrite nth_map_lt by (rewrite HS; assumption). reflexivity.
+  Qed.
+
+  Lemma rsum_translate m l :
+    rsum (map (fun v => rsub v m) l) = rsub (rsum l) (rmul (ofn (length l)) m).
+  Proof.
+    induction l as [|a t IH]; cbn; [ring|]. unfold Model.rsum in *. cbn. rewrite IH. ring.
+  Qed.
+
+  Lemma mean_translate m l : l <> [] ->
+    mean (map (fun v => rsub v m) l) = rsub (mean l) m.
+  Proof.
+    intros Hne. unfold Model.mean. rewrite map_length, rsum_translate.
+    destruct l as [|a t]; [congruence|]. pose proof (char0 (length t)) as Hc.
+    cbn [length]. field. exact Hc.
+  Qed.
+
+  (* --- columns of x - stat(x, axis=0) --- *)
+  Lemma nth_vsub j r s : length r = length s -> (j < length r)%nat ->
+    nth j (vsub r s) rO = rsub (nth j r rO) (nth j s rO).
+  Proof.
+    intros HL Hj. unfold Model.vsub.
+    rewrite nth_indep with (d' := (fun p => rsub (fst p) (snd p)) (rO, rO))
+      by (rewrite map_length, combine_length; lia).
+    rewrite (map_nth (fun p : R * R => rsub (fst p) (snd p)) (combine r s) (rO, rO) j).
+    rewrite combine_nth by assumption. reflexivity.
+  Qed.
+
+  Lemma col_stats_length stat x : length (col_stats stat x) = ncols x.
+  Proof. unfold Model.col_stats. now rewrite map_length, seq_length. Qed.
+
+  Lemma nth_col_stats stat x j : (j < ncols x)%nat ->
+    nth j (col_stats stat x) rO = stat (col j x).
+  Proof.
+    intros Hj. unfold Model.col_stats.
+    rewrite nth_indep with (d' := (fun j => stat (col j x)) O) by (now rewrite map_length, seq_length).
+    rewrite (map_nth (fun j => stat (col j x)) (seq 0 (ncols x)) O j). now rewrite seq_nth.
+  Qed.
+
+  Lemma col_sub_stats stat x j : rect x -> (j < ncols x)%nat ->
+    col j (map (fun r => vsub r (col_stats stat x)) x) =
+    map (fun v => rsub v (stat (col j x))) (col j x).
+  Proof.
+    intros Hr Hj. unfold Model.col. rewrite !map_map. apply map_ext_in. intros r Hin.
+    rewrite nth_vsub.
+    - now rewrite nth_col_stats.
+    - rewrite col_stats_length. now apply Hr.
+    - rewrite (Hr r Hin). exact Hj.
+  Qed.
+
+  Lemma col_nonempty j x : x <> [] -> col j x <> [].
+  Proof. destruct x; [congruence|]. discriminate. Qed.
+
+  Lemma car_base_length op x : length (car_base op x) = length x.
+  Proof. unfold Model.car_base. destruct (op =? 0)%Z; [|destruct (op =? 1)%Z]; now rewrite ?map_length. Qed.
+
+  Lemma car_base_zero_median x j : rect x -> x <> [] -> (j < ncols x)%nat ->
+    median (col j (car_base 0 x)) = rO.
+  Proof.
+    intros Hr Hne Hj. unfold Model.car_base. change (0 =? 0)%Z with true. cbv iota.
+    rewrite col_sub_stats by assumption.
+    rewrite median_translate by (now apply col_nonempty). ring.
+  Qed.
+
+  Lemma car_base_zero_mean x j : rect x -> x <> [] -> (j < ncols x)%nat ->
+    mean (col j (car_base 1 x)) = rO.
+  Proof.
+    intros Hr Hne Hj. unfold Model.car_base. change (1 =? 0)%Z with false. change (1 =? 1)%Z with true. cbv iota.
+    rewrite col_sub_stats by assumption.
+    rewrite mean_translate by (now apply col_nonempty). ring.
+  Qed.
+
+  (* --- a group's rows form a rectangular, non-empty block of the same width --- *)
+  Lemma gather_rect idx x : rect x -> idx <> [] -> (forall i, In i idx -> (i < length x)%nat) ->
+    rect (gather [] idx x) /\ gather [] idx x <> [] /\ ncols (gather [] idx x) = ncols x.
+  Proof.
+    intros Hr Hne Hb.
+    assert (Hrow : forall i, In i idx -> length (nth i x []) = ncols x).
+    { intros i Hi. apply Hr. apply nth_In. now apply Hb. }
+    assert (Hnc : ncols (gather [] idx x) = ncols x).
+    { destruct idx as [|i idx]; [congruence|]. cbn. apply Hrow. now left. }
+    split; [|split; [destruct idx; [congruence|discriminate]|exact Hnc]].
+    intros r Hin. rewrite Hnc. unfold gather in Hin. apply in_map_iff in Hin.
+    destruct Hin as [i [<- Hi]]. now apply Hrow.
+  Qed.
+
+  Lemma positions_nonempty c coll : In c coll -> positions c coll O <> [].
+  Proof.
+    intros Hin. apply In_nth with (d := 0%Z) in Hin. destruct Hin as [i [Hi Hc]].
+    intros E. assert (H : In i (positions c coll O)).
+    { apply positions_spec. split; [lia|]. now rewrite Nat.sub_0_r. }
+    rewrite E in H. destruct H.
+  Qed.
+
+  Lemma car_grouped_block op coll x out c :
+    coll <> [] -> car op (Some coll) x = Some out -> In c coll ->
+    length out = length x /\
+    gather [] (positions c coll O) out = car_base op (gather [] (positions c coll O) x).
+  Proof.
+    intros Hne H Hc. unfold Model.car in H.
+    destruct (grouped_spec _ [] zero_row (car_base op) (car_base_length op) coll x out Hne H)
+      as [_ [HL [HG _]]].
+    split; [exact HL|]. now apply HG.
+  Qed.
+
+  Lemma car_grouped_zero_median coll x out c j :
+    rect x -> coll <> [] -> car 0 (Some coll) x = Some out -> In c coll -> (j < ncols x)%nat ->
+    median (col j (gather [] (positions c coll O) out)) = rO.
+  Proof.
+    intros Hr Hne H Hc Hj.
+    pose proof H as H'. unfold Model.car in H'.
+    destruct (grouped_spec _ [] zero_row (car_base 0) (car_base_length 0) coll x out Hne H')
+      as [HLc [HL [HG _]]].
+    rewrite (HG c Hc).
+    destruct (gather_rect (positions c coll O) x Hr (positions_nonempty c coll Hc)) as [G1 [G2 G3]].
+    { intros i Hi. rewrite <- HLc. apply positions_spec in Hi. lia. }
+    apply car_base_zero_median; [assumption|assumption|now rewrite G3].
+  Qed.
+
+  Lemma car_grouped_zero_mean coll x out c j :
+    rect x -> coll <> [] -> car 1 (Some coll) x = Some out -> In c coll -> (j < ncols x)%nat ->
+    mean (col j (gather [] (positions c coll O) out)) = rO.
+  Proof.
+    intros Hr Hne H Hc Hj.
+    pose proof H as H'. unfold Model.car in H'.
+    destruct (grouped_spec _ [] zero_row (car_base 1) (car_base_length 1) coll x out Hne H')
+      as [HLc [HL [HG _]]].
+    rewrite (HG c Hc).
+    destruct (gather_rect (positions c coll O) x Hr (positions_nonempty c coll Hc)) as [G1 [G2 G3]].
+    { intros i Hi. rewrite <- HLc. apply positions_spec in Hi. lia. }
+    apply car_base_zero_mean; [assumption|assumption|now rewrite G3].
+  Qed.
+End NumericProofs.
